@@ -11,7 +11,8 @@ EXTENDS BlockRelay, Json
 
 CONSTANTS ScenLen,      \* steps per scenario
           MaxSignFail,  \* failing signing requests per round
-          Matrix        \* TRUE: the scenarios are "fetch a document ; one round with every failure combination"
+          Matrix,       \* TRUE: the scenarios are "fetch a document ; one round with every failure combination"
+          History       \* TRUE: the scenarios are "(fetch a document ; round of all accounts) x ScenLen/2", every sequence
 
 VARIABLES hist, nk
 svars == <<vars, hist, nk>>
@@ -58,9 +59,21 @@ FwdStep ==
         /\ H([ev |-> "Fwd", regs |-> {<<x.v, x.fee, x.gas>> : x \in regs}])
         /\ UNCHANGED vars
 
+\* TLC's simulator evaluates the invariants on every candidate successor: the closing step has a single
+\* successor, so that exactly the behaviours that were walked are printed
+EndStep == Len(hist) = ScenLen + 1 /\ H([ev |-> "End"]) /\ nk' = nk /\ UNCHANGED vars
+
 SNext ==
+  \/ EndStep
+  \/
     /\ Len(hist) <= ScenLen
-    /\ IF Matrix
+    /\ IF History
+       THEN /\ \/ Len(hist) % 2 = 1 /\ (\E k \in DocIds : ConfigFetch([t |-> "good", doc |-> k])
+                                                         /\ H([ev |-> "Fetch", out |-> "good", doc |-> k]))
+               \/ Len(hist) % 2 = 0 /\ H([ev |-> "Round", accts |-> Validators, signfail |-> {}, relayfail |-> {}, nodefail |-> {}])
+                                      /\ UNCHANGED vars
+            /\ nk' = nk
+       ELSE IF Matrix
        THEN /\ \/ Len(hist) = 1 /\ (\E k \in DocIds : ConfigFetch([t |-> "good", doc |-> k])
                                                      /\ H([ev |-> "Fetch", out |-> "good", doc |-> k]))
                \/ Len(hist) = 2 /\ RoundStep
@@ -73,5 +86,5 @@ SNext ==
 
 SSpec == SInit /\ [][SNext]_svars
 
-Emit == (Len(hist) = ScenLen + 1) => PrintT(ToJson(hist))
+Emit == (Len(hist) = ScenLen + 2) => PrintT(ToJson(SubSeq(hist, 1, ScenLen + 1)))
 =============================================================================
